@@ -50,10 +50,29 @@ class Ctx:
         self._layouts = {}
         self.contracts_ok = None
 
-    def configs(self, quick=("std", "alloc", "none"), thorough=("std", "alloc", "none")):
-        # every tier analyses all three build configurations: a divergence that exists only with
-        # `alloc` but without `std` is as much a violation as any other
-        return list(thorough if self.tier == "thorough" else quick)
+    def configs(self, quick=("std", "alloc", "none", "both"), thorough=("std", "alloc", "none", "both")):
+        # every tier analyses all four feature combinations (std; alloc without std; neither; std
+        # and alloc together, which cargo's feature unification produces as soon as one dependant
+        # asks for alloc): a divergence that exists in only one of them is as much a violation as
+        # any other
+        cfgs = list(thorough if self.tier == "thorough" else quick)
+        if "both" in cfgs and not self.both_differs():
+            cfgs.remove("both")      # identical MIR: everything decided for std holds for std+alloc
+        return cfgs
+
+    def both_differs(self):
+        """does the crate compile to different MIR with std and alloc together than with std alone?
+        (the two fact files are compared in full, the configuration label aside)"""
+        if not hasattr(self, "_both"):
+            import json
+            d = self.facts_dir(["std", "both"])
+            a = json.load(open(os.path.join(d, "std" + self._sfx, "ais.json")))
+            b = json.load(open(os.path.join(d, "both" + self._sfx, "ais.json")))
+            a.pop("config", None)
+            b.pop("config", None)
+            self._both = a != b
+            self._used.add(("both", "ais"))
+        return self._both
 
     def facts_dir(self, configs):
         r = subprocess.run([os.path.join(VERIF, "bin", "facts")] + [c + self._sfx for c in configs], stdout=subprocess.PIPE, stderr=subprocess.PIPE, text=True)
